@@ -1,6 +1,6 @@
 (* C16 — property theorems (statements only; proofs live in Proofs*.v). *)
 From Coq Require Import ZArith QArith Qabs List Bool.
-Require Import QV.C16.Model QV.C16.Spec QV.C16.Proofs QV.C16.Proofs2 QV.C16.Proofs3 QV.C16.Proofs4 QV.C16.Proofs5.
+Require Import QV.C16.Model QV.C16.Spec QV.C16.Proofs QV.C16.Proofs2 QV.C16.Proofs3 QV.C16.Proofs4 QV.C16.Proofs5 QV.C16.Proofs_term.
 Import ListNotations.
 Open Scope Z_scope.
 
@@ -24,17 +24,60 @@ Theorem C16_plays : forall c tbl prog o,
 Proof. exact compile_plays. Qed.
 Print Assumptions C16_plays.
 
-(* (1) restructuring: for EVERY fuel of the two loops (termination is not claimed), every tree shape, repetition
-   count, measurement flag and device limit: if flatten_and_balance(2) and prepare_program_for_advanced_sequence_mode
-   finish, the tables they leave play exactly the leaves of the source program, in order and multiplicity *)
-Theorem C16_plays_restructuring_partial : forall prog f1 f2 mn mx ch1 ch2,
+(* (0') the fuel of the two restructuring loops is a model artefact: there is fuel (n1, n2) from which on the result
+   of the compiler model is the same for every larger fuel, it is never the fuel error, and if it is `Ok o` then o
+   plays the specification *)
+Theorem C16_plays_total : forall c tbl prog,
+  good prog = true ->
+  (forall w1 w2 d1 d2, nth_error tbl w1 = Some d1 -> nth_error tbl w2 = Some d2 -> wf_cls d1 = wf_cls d2 -> d1 = d2) ->
+  (forall w d, nth_error tbl w = Some d -> (wf_len d == inject_Z (wf_n d))%Q) ->
+  exists n1 n2 r, r <> Err EFuel /\
+    (forall k1 k2, compile_with (n1 + k1) (n2 + k2) c tbl prog = r) /\
+    (forall o, r = Ok o -> exists s, spec c tbl prog = Some s /\ expand o = Some s).
+Proof.
+  intros c tbl prog G H1 H2. destruct (compile_terminates c tbl prog) as (n1 & n2 & r & Hr & Hk).
+  exists n1, n2, r. split; [exact Hr|]. split; [exact Hk|]. intros o ->.
+  apply (compile_with_plays (n1 + 0) (n2 + 0) c tbl prog o G H1 H2). apply Hk.
+Qed.
+Print Assumptions C16_plays_total.
+
+(* (1) restructuring: for EVERY fuel of the two loops, every tree shape, repetition count, measurement flag and device
+   limit: whenever flatten_and_balance(2) and prepare_program_for_advanced_sequence_mode return, the tables they leave
+   play exactly the leaves of the source program, in order and multiplicity (termination: (1a), (1b)) *)
+Theorem C16_plays_restructuring : forall prog f1 f2 mn mx ch1 ch2,
   good prog = true ->
   depth (root_of prog) >? 1 = true -> l_rep (root_of prog) =? 1 = true ->
   fab f1 2 [] (l_ch (root_of prog)) = Ok ch1 ->
   prep f2 mn mx [] ch1 = Ok ch2 ->
   forallb tgood ch2 = true /\ flatten (set_ch (root_of prog) ch2) = flatten prog /\ flatten prog = flat_list ch2.
 Proof. exact restructure_preserves. Qed.
-Print Assumptions C16_plays_restructuring_partial.
+Print Assumptions C16_plays_restructuring.
+
+(* (1a) flatten_and_balance terminates: for every level, finished prefix and work list (any trees, any counts) some
+   fuel suffices, and a result other than the fuel error is the same with more fuel *)
+Theorem C16_fab_terminates : forall d done todo,
+  (exists n, forall k, fab (n + k) d done todo <> Err EFuel) /\
+  (forall n r, fab n d done todo = r -> r <> Err EFuel -> forall k, fab (n + k) d done todo = r).
+Proof. intros d done todo. split; [apply fab_terminates|intros n r; apply fab_fuel_mono]. Qed.
+Print Assumptions C16_fab_terminates.
+
+(* (1b) prepare_program_for_advanced_sequence_mode terminates, with the explicit measure
+   prep_measure before after = #tables not yet passed + sum of the repetition counts of all tables:
+   more fuel than the measure is always enough (incl. the inner split_one_child loop), for every limit pair *)
+Theorem C16_prep_terminates : forall fuel mn mx before after,
+  (prep_measure before after < fuel)%nat ->
+  prep fuel mn mx before after <> Err EFuel /\
+  (forall k, prep (fuel + k) mn mx before after = prep fuel mn mx before after).
+Proof.
+  intros fuel mn mx before after H. pose proof (prep_terminates fuel mn mx before after H) as Hn.
+  split; [exact Hn|]. intros k. now apply prep_fuel_mono.
+Qed.
+Print Assumptions C16_prep_terminates.
+
+Theorem C16_prep_step_decreases : forall mn mx before after b a,
+  prep_step mn mx before after = PNext b a -> (prep_measure b a < prep_measure before after)%nat.
+Proof. exact prep_step_measure. Qed.
+Print Assumptions C16_prep_step_decreases.
 
 (* (2) one segment: the uploaded binary of a sampled waveform, decoded by the table player's `decode_segment`
    (channel B | channel A with marker bits 14/15 in words 8..15 of every quantum), is exactly the 14-bit codes of both
@@ -92,3 +135,13 @@ Print Assumptions C16_reject.
 Theorem C16_example_accepted : good ex_prog = true /\ ex_accepts = true.
 Proof. split; [exact ex_good|exact ex_accepts_true]. Qed.
 Print Assumptions C16_example_accepted.
+
+(* non-vacuity of C16_plays: the example satisfies every hypothesis (good tree, injective classes, exact lengths) and is
+   accepted *)
+Theorem C16_plays_nonvacuous :
+  good ex_prog = true /\
+  (forall w1 w2 d1 d2, nth_error ex_tbl w1 = Some d1 -> nth_error ex_tbl w2 = Some d2 -> wf_cls d1 = wf_cls d2 -> d1 = d2) /\
+  (forall w d, nth_error ex_tbl w = Some d -> (wf_len d == inject_Z (wf_n d))%Q) /\
+  exists o, compile (ex_cfg 3 5) ex_tbl ex_prog = Ok o.
+Proof. exact ex_hyps. Qed.
+Print Assumptions C16_plays_nonvacuous.
